@@ -73,7 +73,8 @@ CHECKS = {
     "C14": {
         "level": "exploration",
         "rule": "world/history generator of C03 restricted to Parallel sets, mostly constructed populations; oracle per error-free reconcile: every "
-                "vacant desired ordinal of the snapshot is created and every live condemned pod deleted in that reconcile, <= 1 update delete. "
+                "vacant desired ordinal of the snapshot is created and every live condemned pod deleted in that reconcile, <= 1 update delete, "
+                "and the rolling-update discipline of C07 (an update delete needs every higher desired pod up to date and healthy). "
                 "Non-trivial = k+m >= 2 with at least one unhealthy/terminating bystander pod; distinct = world+history",
         "legs": [{"test": "TestC14", "quick": {"checks": 3000}, "thorough": {"checks": 400000, "shards": 16}}],
         "floors": {"parallel-reconcile-with-scaling-work": 0.3},
@@ -101,9 +102,12 @@ CHECKS = {
         "level": "exploration",
         "rule": "case = generated world with a mostly constructed initial pod population (present / missing / unready / terminating / outdated / extra / "
                 "orphaned / failed / succeeded pods over ordinals 0..8, 1-3 revisions with status.currentRevision re-pointed) + <= 25 random ops "
-                "(reconciles with stale caches, faults, interference, kubelet steps, user edits, controller restart), then the fair closing schedule "
-                "(full refresh, reconcile, kubelet readies every remaining pod and finalises terminating ones) with state-cycle detection and a "
-                "round bound B = 4(|pods|+r+|slots|+9)+16. Oracle at the fixed point: pods = exactly the desired ordinals, all Running+Ready, owned, "
+                "(reconciles with stale caches, faults incl. ones aimed at the status write, interference, kubelet steps, user edits, pods created "
+                "or orphaned by somebody else, controller restart), then a fair closing schedule with state-cycle detection and a round bound "
+                "B = 4(|pods|+r+|slots|+9)+16 - either direct (full refresh, reconcile, 0-2 extra reconciles that still see terminating pods, kubelet "
+                "readies every remaining pod and finalises terminating ones) or, for a third of the cases, event-driven: the whole history delivers "
+                "every cache change through the handlers the controller registered, and a reconcile happens only for a key that an event put into "
+                "the work queue (quiescence = queue empty and caches current). Oracle at the fixed point: pods = exactly the desired ordinals, all Running+Ready, owned, "
                 "at the revision their ordinal calls for; status.replicas = readyReplicas = spec.replicas; counters are an exact census; two more "
                 "reconciles issue no write. Runs whose final state holds a Failed/Succeeded pod outside the desired set under OrderedReady are "
                 "premise-excluded (counted). Non-trivial = the initial population needs >= 2 kinds of repair or a slot lies below the top ordinal; "
@@ -114,7 +118,8 @@ CHECKS = {
     "C12": {
         "level": "exploration",
         "rule": "case = world reached only through legitimate transitions (set created empty; template edits, rollbacks, scale edits, kubelet "
-                "progress incl. pod failures, user pod deletions, stale caches, faults, mid-reconcile edits) of <= 40 ops, then the closing schedule. "
+                "progress incl. pod failures, user pod deletions, stale caches, faults, mid-reconcile edits) of <= 40 ops, then the closing schedule "
+                "(direct or event-driven as in C02). "
                 "Oracle per status write: 0 <= ready/current/updated <= replicas, observedGeneration = reconciled generation and >= stored value, "
                 "currentRevision moves only to updateRevision and only when the snapshot's pods are all updated and Ready; at the fixed point the "
                 "four counters are an exact census of live pods. Non-trivial = a status write from a reconcile that also wrote a pod, or with >= 3 "
@@ -145,7 +150,8 @@ CHECKS = {
         "rule": "case = C03-style world (constructed pods incl. adoptable orphans, orphan ControllerRevisions, faults, stale caches; no mid-reconcile "
                 "interference) in whose history a flag is raised before op i - a deletion timestamp, or paused-reconcile=true lowered again before "
                 "op j. Oracle while the snapshot shows the flag: paused => zero writes on every resource; deleting => no write on pods or claims, no "
-                "owner-reference patch on pods or ControllerRevisions. Pause only: a never-paused twin (clone taken when the flag is raised) runs the "
+                "write of any verb that changes the controlling owner of a pod or ControllerRevision; a stale-cached set that already carries the "
+                "deletion timestamp in the API adopts nothing either; the un-pause, delivered as a set update event, must enqueue the set. Pause only: a never-paused twin (clone taken when the flag is raised) runs the "
                 "same environment history; both are closed by the fair schedule, must satisfy the C02 fixed-point oracle and agree on the "
                 "spec-determined projection (ordinals, readiness, status.replicas/readyReplicas, update-revision template, images of pods at or "
                 "above the partition). Non-trivial = a clone reconciled at the moment the flag is raised would have written something and at least "
@@ -173,9 +179,11 @@ CHECKS = {
                 "through a real worker step to learn its N API calls; then for each chosen position (quick: 4 drawn per state, thorough: all N) x "
                 "each of 8 fault kinds (server error, timeout not applied, timeout applied, crash before / after the call, and the real "
                 "interferences conflict, not-found, already-exists) a fresh clone is reconciled with that fault; a quarter of the states add a "
-                "second fault in the first recovery reconcile (pairs). One evaluation = one (state, position, kind) execution. Oracle: an error "
+                "second fault in the first recovery reconcile (pairs); the sampled tier always adds the pod creates/deletes and the uncached "
+                "confirmation read of the set. One evaluation = one (state, position, kind) execution. Oracle: an error "
                 "result bumps the key's requeue counter and the key comes back, success clears it; a transient fault that is answered with success "
-                "must leave the same state as the unfaulted run; the safety monitors of C03/C04/C05/C07/C10/C12 hold on the faulted reconcile and "
+                "must leave the same state as the unfaulted run; a call that an interference made fail for real may be answered with success only "
+                "where the design tolerates it (adopt/release of a vanished pod, identical revision already there, conflict-retried updates); the safety monitors of C03/C04/C05/C07/C10/C12 hold on the faulted reconcile and "
                 "on every reconcile of the recovery; the fair closing schedule reaches a fixed point equal (ordinals, readiness, owners, revisions "
                 "at or above the partition, status, claims) to that of the unfaulted twin. Non-trivial = the fault hits at or after the first write "
                 "of a reconcile with >= 2 writes; distinct = distinct (state, position, kind, second fault)",
@@ -191,7 +199,8 @@ CHECKS = {
                 "events delivered through the very handlers the real constructor registered on the informers: pod add / update(old,cur) / delete / "
                 "delete-by-tombstone / tombstone holding a non-pod, over pods whose owner is none, A, A with a stale UID, another kind named like A, B "
                 "or an unknown set, labels matching A, B, neither or nil, equal or different resource versions, with or without a deletion timestamp; "
-                "set add / update (annotation-only change) / delete / tombstone; and runs of real worker steps with drawn success/failure. Oracle "
+                "set add / update (annotation-only change) / delete / tombstone; and runs of real worker steps with drawn success/failure incl. "
+                "outages of 12-40 consecutive failures (on a queue of the same kind with a fast rate limiter, installed through a hook). Oracle "
                 "after each event: the drained queue keys lie between REQ and ALLOW of a reference model of the statement (owner resolved by kind + "
                 "name + UID; owner change => old and new owner; orphan => every matching set; unrelated => nothing; any set event => that set); a "
                 "failing worker step bumps the requeue counter by exactly one and the key comes back, a succeeding one resets it to 0. Non-trivial = "
